@@ -70,6 +70,23 @@ CHECKS['C09'] = {
     ],
 }
 
+CHECKS['C20'] = {
+    'level': 'exploration',
+    'technique': 'model-based property testing: generated attach/detach/destroy/invalidate/clock histories (with callbacks that mutate the tree) on a PulseNode tree under a simulated clock, against a per-node (attached, valid requested time) model',
+    'level_text': ('Generated-history search with a reference model: the wake-up time the root reports is compared with the model minimum at every wait, every callback is checked '
+                   'for attached/valid/due/scheduled-time/callback-time/once-per-pulse, every attached node must have been asked before each wait, and due nodes must fire in the same cycle '
+                   '(no callback mutation) or be still due with a wake-up <= now and fire in the quiet follow-up cycle (callback mutation). Held = no disagreement on everything generated.'),
+    'level_note': 'Trusted: the model of validity (a requested time stays valid until the node is pulsed, invalidated, detached or re-attached). Destroying nodes from inside callbacks is outside the domain (the library keeps raw pointers up the call stack).',
+    'rule': ('Byte-decoded histories (<=80 steps, 7 nodes): attach/re-parent, detach, invalidate (with/without clearing), destroy, and event-loop cycles (ask, advance clock to/before/past the wake-up, pulse); '
+             'GetPulseTime answers drawn from {never, past, now, soon, later}; callbacks run up to two mutations. Non-trivial: a pulse fired >=2 nodes at different depths, or a callback mutated the tree. '
+             'Distinct: hash of the decoded step bytes.'),
+    'assumptions': [],
+    'targets': [
+        {'name': 'c20_pulsenode', 'src': ['harness/C20_pulsenode.cpp'], 'quick_n': 10000000, 'thorough_n': 100000000, 'maxlen': 400, 'min_nontrivial': 1000000,
+         'class_floors': {'case_with_callback_mutation': 200000, 'case_pulse_fired_nodes_at_two_depths': 100000, 'case_with_deferred_due_node': 20000}},
+    ],
+}
+
 
 def setup():
     t0 = time.time()
